@@ -1,18 +1,7 @@
-use rbx_dom_weak::{InstanceBuilder, WeakDom};
-use rbx_types::*;
 fn main() {
-    let dom = WeakDom::new(InstanceBuilder::new("DataModel")
-        .with_child(InstanceBuilder::new("Folder").with_property("UniqueId", UniqueId::new(1, 2, 3)))
-        .with_child(InstanceBuilder::new("Folder"))
-        .with_child(InstanceBuilder::new("Folder")));
-    let roots = dom.root().children().to_vec();
-    let mut b = Vec::new();
-    rbx_binary::to_writer(&mut b, &dom, &roots).unwrap();
-    for round in 0..2 {
-        let d = rbx_binary::from_reader(b.as_slice()).unwrap();
-        for r in d.root().children() {
-            let i = d.get_by_ref(*r).unwrap();
-            println!("round {} {:?}", round, i.properties.get(&"UniqueId".into()));
-        }
+    let db = rbx_reflection_database::get();
+    let c = &db.classes["StarterPlayer"];
+    for (n, p) in c.properties.iter() {
+        if n.starts_with("GameSettings") { println!("{} {:?} {:?}", n, p.data_type, p.kind); }
     }
 }
